@@ -69,13 +69,16 @@ Definition flat_row := ((Z * Z * Z * Z * Z * Z) *
 Definition mk_frow (x : flat_row) : frow :=
   let '(s, sh, b, ib) := x in Build_frow (mk_srow s) (mk_shape sh) (mk_brow b) ib.
 
+(* MAmp carries the RAW min_n_cycles entries of the caller's two option dictionaries (burst_kwargs' /
+   threshold_kwargs', None = key absent); the count the run filter works with is resolved HERE, by the
+   model (Labels.filter_min_n), not by the harness.  The detector mask is an input (reference kernel). *)
 Inductive method_in :=
 | MCycles (t : float * float * float * float) (n : Z)
-| MAmp (mask : barr) (t : float) (n : Z).
+| MAmp (mask : barr) (t : float) (bk tk : option Z).
 Definition mk_method (m : method_in) : method :=
   match m with
   | MCycles t n => Cycles (mk_thr t) n
-  | MAmp mask t n => Amp (barr_bits mask) t n
+  | MAmp mask t bk tk => Amp (barr_bits mask) t (filter_min_n bk tk)
   end.
 
 Definition features_in := (centre * list float * (barr * nat * list float) * Z * method_in)%type.
